@@ -89,7 +89,7 @@ struct SeqModel {
 // Event: kind (MapModel::Kind), a = key, b = new instance id (insert/update/emplace), c = flags;
 //        r = success, r2 = instance observed / extracted / created (-1 none), r3 = "inserted" flag of update.
 struct MapModel {
-    enum Kind { INSERT = 0, ERASE = 1, CONTAINS = 2, FIND = 3, UPDATE = 4, UPSERT_NOINS = 5, EXTRACT = 6, GET = 7, EXTRACT_MIN = 8, EXTRACT_MAX = 9, NKINDS };
+    enum Kind { INSERT = 0, ERASE = 1, CONTAINS = 2, FIND = 3, UPDATE = 4, UPSERT_NOINS = 5, EXTRACT = 6, GET = 7, EXTRACT_MIN = 8, EXTRACT_MAX = 9, CLEAR = 10, NKINDS };
     bool update_replaces;     // update() on an existing key replaces the element instance (IterableList, Feldman) instead of calling the functor on it
     bool check_instance;      // instance ids are observable for this subject
     explicit MapModel(bool repl = false, bool inst = true) : update_replaces(repl), check_instance(inst) {}
@@ -103,6 +103,7 @@ struct MapModel {
     bool step(State& s, const Event& e) const {
         auto it = find(s, e.a); bool present = it != s.end();
         switch (e.kind) {
+        case CLEAR: s.clear(); return true;
         case INSERT: if (e.r) { if (present) return false; put(s, e.a, e.b); return true; } return present;
         case ERASE: case EXTRACT: if (e.r) { if (!present || !inst_ok(e.r2, it->second)) return false; s.erase(it); return true; } return !present;
         case CONTAINS: return (e.r != 0) == present;
